@@ -57,8 +57,9 @@ func encodeDate(date time.Time) []byte {
 	if date.IsZero() {
 		return []byte{_nilTag}
 	}
-	if date.UnixNano()%int64(time.Second) > 0 {
-		value := date.UnixNano() / int64(time.Millisecond)
+	// the compact form carries whole seconds in 32 bits; everything else needs the 8 octet form
+	if sec := date.Unix(); date.Nanosecond() != 0 || sec != int64(int32(sec)) {
+		value := sec*1000 + int64(date.Nanosecond()/int(time.Millisecond))
 
 		// 8 octet longs
 		return []byte{
@@ -102,7 +103,8 @@ func decodeDateValue(reader ByteRuneReader, flag int32) (time.Time, error) {
 		by := []byte{bf[0], bf[1], bf[2], bf[3], bf[4], bf[5], bf[6], bf[7]}
 		u64 := binary.BigEndian.Uint64(by)
 		i64 := *(*int64)(unsafe.Pointer(&u64))
-		return time.Unix(0, i64*int64(time.Millisecond)), nil
+		// not via nanoseconds: they overflow an int64 outside the years 1678..2262
+		return time.Unix(i64/1000, (i64%1000)*int64(time.Millisecond)), nil
 	case _dateSecondStartTag:
 		buf, err := readBytes(reader, 4)
 		if err != nil {
